@@ -290,8 +290,12 @@ impl<T: Socket + ?Sized> Worker<T> {
         for i in 0..self.repeat_amount {
             if i > 0 {
                 std::thread::sleep(DEFAULT_DUPLICATE_DELAY);
+                // Extra copies are best effort: the peer may be done and have closed its
+                // socket after the first one, which makes a later send fail.
+                let _ = self.socket.send(packet);
+            } else {
+                self.socket.send(packet)?;
             }
-            self.socket.send(packet)?;
         }
 
         Ok(())
